@@ -103,10 +103,12 @@ class Collector:
             self.fails.append((f"C05.topo|exc|{name}|{type(e).__name__}|{fr[0]}:{fr[1]}|{cls}", f"{type(e).__name__}: {e}"))
             return None
 
-    def finish(self, case_text):
+    def finish(self, case_text, ctx, focus=None):
         if not self.fails:
             return
-        self.fails.sort(key=lambda f: f[0] in DEFERRED)  # stable: first non-deferred failure first
+        # stable sort: a clause that is not a listed known finding first, then one that is not among the
+        # defects already found, then the clause a replay file wants to show (`focus`)
+        self.fails.sort(key=lambda f: (ctx.is_known(f[0]) is not None, f[0] in DEFERRED, bool(focus) and focus not in f[0]))
         sig, msg = self.fails[0]
         more = "" if len(self.fails) == 1 else f" (+{len(self.fails) - 1} more failed clauses: {sorted({f[0] for f in self.fails[1:]})[:4]})"
         raise Violation(sig, f"{msg}{more} :: {case_text}")
@@ -192,7 +194,7 @@ def b_topo(case, ctx):
         _compare(col, mesh, got, locals())
     except Violation as v:
         col.fails.append((v.sig, v.msg))
-    col.finish(text)
+    col.finish(text, ctx, case.get("focus"))
 
 
 def _compare(col, mesh, got, w):
@@ -483,7 +485,7 @@ def soup(draw):
     }
 
 
-POOL_KINDS = ["pillow", "tetra", "octa", "box", "icos", "prism", "torus", "uvsphere"]
+POOL_KINDS = ["pillow", "tetra", "octa", "box", "icos", "prism", "torus", "torus", "uvsphere"]
 
 
 @st.composite
@@ -558,12 +560,12 @@ def s_enum_f3(ctx):
 
 @subcheck("C05", "soup", shards={"quick": 4, "thorough": 12})
 def s_soup(ctx):
-    ctx.given("C05.topo", soup(), n={"quick": 4000, "thorough": 150000})
+    ctx.given("C05.topo", soup(), n={"quick": 4000, "thorough": 100000})
 
 
 @subcheck("C05", "pool", shards={"quick": 4, "thorough": 12})
 def s_pool(ctx):
-    ctx.given("C05.topo", pool_case(), n={"quick": 1200, "thorough": 40000})
+    ctx.given("C05.topo", pool_case(), n={"quick": 1400, "thorough": 25000})
 
 
 REQUIRED_CLASSES["C05"] = [
